@@ -78,6 +78,47 @@ _CANON = {
 
 
 _NESTED_INDEX = None
+_MEMBER_INDEX = None
+
+
+class _Members(dict):
+    """name -> def of a class's methods / a module's functions.  A PRIVATE helper (leading underscore) that was merely renamed is still found under the
+    name the rules use: sa/member_index.json records its position among the scope's defs and its parameter count on the rules' reference tree; when the
+    scope still has as many defs and the one at that position has that many parameters (and no def of the old name exists), it is the anchor."""
+
+    def __init__(self, scope, items=()):
+        super().__init__(items)
+        self.scope = scope
+
+    def __missing__(self, key):
+        d = self._renamed(key)
+        if d is None:
+            raise KeyError(key)
+        return d
+
+    def get(self, key, default=None):
+        if dict.__contains__(self, key):
+            return dict.__getitem__(self, key)
+        d = self._renamed(key)
+        return d if d is not None else default
+
+    def _renamed(self, key):
+        global _MEMBER_INDEX
+        if not (isinstance(key, str) and key.startswith("_") and not key.startswith("__")):
+            return None
+        if _MEMBER_INDEX is None:
+            import json
+            p = os.path.join(os.path.dirname(os.path.abspath(__file__)), "member_index.json")
+            _MEMBER_INDEX = json.load(open(p)) if os.path.exists(p) else {}
+        ent = _MEMBER_INDEX.get(f"{self.scope}/{key}")
+        defs = list(self.values())
+        if ent is None or len(defs) != ent["n"]:
+            return None
+        d = defs[ent["index"]]
+        n_params = len(d.args.posonlyargs) + len(d.args.args) + (1 if d.args.vararg else 0) + (1 if d.args.kwarg else 0)
+        known = {k.split("/", 1)[1] for k in _MEMBER_INDEX if k.startswith(self.scope + "/")}
+        return d if n_params == ent["n_params"] and d.name.startswith("_") and d.name not in known else None
+
 
 
 def _nested_defs(fn):
@@ -119,6 +160,54 @@ class Program:
                     p = os.path.join(dirpath, f)
                     rel = os.path.relpath(p, self.root)
                     self._load(rel, p)
+        self.renamed: dict[str, str] = {}
+        self._undo_private_renames()
+
+    def _undo_private_renames(self) -> None:
+        """A private helper the rules speak about by name (sa/member_index.json) that was merely RENAMED - its old name is gone, its scope has as many defs as
+        on the reference tree and the def at its position has as many parameters - is given its reference name back in the loaded syntax trees (definition
+        and every reference in the package), so the rules read the program as before.  Recorded in `renamed` (reported in the evidence)."""
+        scopes = {rel: m.funcs for rel, m in self.modules.items()}
+        for cname, cis in self.class_index.items():
+            if len(cis) == 1:
+                scopes[cname] = cis[0].methods
+        todo = []
+        for scope, members in scopes.items():
+            if not isinstance(members, _Members):
+                continue
+            global _MEMBER_INDEX
+            members._renamed("_probe")  # loads the table
+            for key in (_MEMBER_INDEX or {}):
+                sc, old = key.split("/", 1) if "/" in key else (None, None)
+                # scope names may contain "/" (module paths): match by prefix
+                if not key.startswith(scope + "/"):
+                    continue
+                old = key[len(scope) + 1:]
+                if "/" in old or dict.__contains__(members, old):
+                    continue
+                d = members._renamed(old)
+                if d is not None:
+                    todo.append((scope, members, old, d))
+        for scope, members, old, d in todo:
+            new = d.name
+            if any(isinstance(n, ast.Name) and n.id == old or isinstance(n, ast.Attribute) and n.attr == old for m in self.modules.values() for n in ast.walk(m.tree)):
+                continue  # the old name still means something somewhere: not a plain rename
+            for m in self.modules.values():
+                for n in ast.walk(m.tree):
+                    if isinstance(n, ast.Name) and n.id == new:
+                        n.id = old
+                    elif isinstance(n, ast.Attribute) and n.attr == new:
+                        n.attr = old
+                    elif isinstance(n, ast.FunctionDef) and n.name == new:
+                        n.name = old
+                for imp_local, imp_target in list(m.imports.items()):
+                    if imp_local == new or imp_target.endswith("." + new):
+                        m.imports.pop(imp_local)
+                        m.imports[old if imp_local == new else imp_local] = imp_target[: -len(new)] + old if imp_target.endswith("." + new) else imp_target
+            items = [(old if k == new else k, v) for k, v in members.items()]
+            members.clear()
+            members.update(items)
+            self.renamed[f"{scope}/{old}"] = new
 
     # ------------------------------------------------------------------ loading
     def _load(self, rel: str, path: str) -> None:
@@ -128,6 +217,7 @@ class Program:
         except SyntaxError as e:  # a tree that does not parse does not "compile"
             raise AnalysisError(f"syntax error in {rel}: {e}")
         m = Module(rel, path, src, tree)
+        m.funcs = _Members(rel)
         self.modules[rel] = m
         for node in tree.body:
             self._top(m, node)
@@ -158,7 +248,7 @@ class Program:
 
     def _class(self, m: Module, node: ast.ClassDef) -> ClassInfo:
         bases = [b for b in (_dotted(x) for x in node.bases) if b and b.split(".")[-1] != "Generic"]
-        methods, fields, static, ann = {}, [], set(), {}
+        methods, fields, static, ann = _Members(node.name), [], set(), {}
         for s in node.body:
             if isinstance(s, ast.FunctionDef):
                 # keep the last non-overload definition
@@ -259,8 +349,8 @@ class Program:
 
     def func(self, name: str, module_suffix: str) -> tuple[Module, ast.FunctionDef]:
         m = self.module(module_suffix)
-        if name in m.funcs:
-            return m, m.funcs[name]
+        if name in m.funcs or m.funcs.get(name) is not None:
+            return m, m.funcs.get(name)
         # moved: unique package-wide search
         hits = [(mm, mm.funcs[name]) for mm in self.modules.values() if name in mm.funcs]
         if len(hits) == 1:
